@@ -768,7 +768,7 @@ func TestVerifC11Matcher(t *testing.T) {
 
 	sessions, maxPat, nq := 120, 2000, 100
 	if VThorough() {
-		sessions, maxPat, nq = 800, 3000, 240
+		sessions, maxPat, nq = 450, 3000, 200
 	}
 	for s := 0; s < sessions; s++ {
 		bitLen := 1024
@@ -813,7 +813,7 @@ func TestVerifC11Matcher(t *testing.T) {
 		c11BigSession(st, stats, r, 10000, 2000)
 	}
 	if VThorough() {
-		c11AcCases(st, stats, r, 120, 10000)
+		c11AcCases(st, stats, r, 300, 10000)
 	} else {
 		c11AcCases(st, stats, r, 25, 1500)
 	}
